@@ -96,6 +96,12 @@ CHECKS = {
    text="For 5 histories (imports in two files, XGo dependency marker, overload families/methods/named types, labels, builtin tables) every permutation of every reached map range (all n! for n<=4 quick / n<=8 thorough) is explored with up to 2 (3) simultaneous deviations; every execution's files and error multiset must equal the baseline; baseline digests are recomputed in a second process. The rewrite is regenerated from /repo on every run, so new map ranges are picked up automatically (listed in evidence).",
    note="Trusted: the overlay rewrite (every explored order is a legal Go iteration order); absence of other nondeterminism sources on output paths.",
    design="§4 C15"),
+ "C06": dict(
+   category="exploration",
+   technique="bounded exhaustive enumeration of overload families (generated fixture packages) x argument lists on the real candidate loop; oracle = go/types applicability of each candidate on reference text, emitted callee/arguments",
+   text="All ordered selections of 1..3 distinct parameter shapes out of 15 as package functions (3k families), 1..2 (3 thorough) out of 13 as value-receiver methods, pointer-receiver methods and interface methods, x 94 argument lists (0-2 arguments over 9 atoms incl. nil, a generic function value, a spread and a tuple call): 325k calls. The builder must pick the lowest-indexed candidate go/types accepts (emitted callee name, Recorder.Call object), reject when none applies, emit the arguments unchanged (no residue), report the candidate's result type; the emitted package must type-check.",
+   note="Trusted: go/types 1.23.5 call rules. Not covered: overloaded named types (_Cast) and overloaded operators, whose meaning is not plain Go (no go/types reference); stated in DESIGN.md.",
+   design="§4 C06"),
 }
 
 NOT_APPLICABLE = {
